@@ -300,15 +300,35 @@ class Engine:
     def check(self, conds):
         self.queries += 1
         s = z3.Solver()
-        s.set("timeout", 60000)
+        s.set("timeout", self.z3_timeout_ms if hasattr(self, "z3_timeout_ms") else 60000)
         for c in conds:
             s.add(c)
         t0 = time.time()
         r = s.check()
         self.solver_s += time.time() - t0
         if r == z3.unknown:
-            raise EngineAbort("solver returned unknown")
+            # second opinion (cvc5 is often stronger on strings/regex); still unknown => abort, never a pass
+            ans = self._cvc5_check(s)
+            if ans is None:
+                raise EngineAbort("solver returned unknown (z3 and cvc5)")
+            self.cvc5_decided = getattr(self, "cvc5_decided", 0) + 1
+            return ans, None
         return r == z3.sat, (s.model() if r == z3.sat else None)
+
+    def _cvc5_check(self, solver):
+        import subprocess
+        txt = "(set-logic ALL)\n" + solver.to_smt2()
+        t0 = time.time()
+        try:
+            r = subprocess.run(["cvc5", "--lang", "smt2", "--tlimit", "120000", "--strings-exp"], input=txt, capture_output=True, text=True, timeout=150)
+        except Exception:
+            return None
+        finally:
+            self.solver_s += time.time() - t0
+        out = r.stdout.strip().splitlines()
+        if not out or "(error" in r.stdout:
+            return None
+        return {"sat": True, "unsat": False}.get(out[0].strip())
 
     def feasible(self, st, extra=()):
         return self.check(st.pc + list(extra))[0]
@@ -582,6 +602,14 @@ class Engine:
                     return IntV(hi - a.t if lo == 0 else -a.t - 1, a.ty)
             if rv[1] == "Neg" and isinstance(a, IntV):
                 return IntV(-a.t, a.ty)
+            if rv[1] == "PtrMetadata":
+                v = self.read(st, a.cell, a.path, None) if isinstance(a, RefV) else a
+                if isinstance(v, OpaqueV) and "items" in v.attrs:
+                    return IntV(len(v.attrs["items"]), "usize")
+                if isinstance(v, AggV) and v.ty == "array":
+                    return IntV(len(v.fields), "usize")
+                if isinstance(v, StrV):
+                    return IntV(len(v.s.encode()), "usize")
             raise EngineAbort("unop %s on %r" % (rv[1], a))
         if k == "discriminant":
             cell, path = self.resolve(st, fr, rv[1])
@@ -1005,7 +1033,8 @@ class Engine:
         h = self.find_summary(callee)
         if h is None:
             fn = self.find_fn(callee)
-            if fn is not None and fn.blocks and any(re.search(p, fn.name) or re.search(p, callee) for p in self.inline):
+            # functions of the crate under analysis are executed (inlined) unless a lemma summarises them
+            if fn is not None and fn.blocks:
                 self.push_call(st, fn, args, (dcell, dpath), ret_bb)
                 return None
             raise EngineAbort("no summary for callee %r (called from %s)" % (callee, fr.fn.name))
